@@ -27,6 +27,9 @@
 //	                 127.0.0.1) through the proxy's own default http.Transport and dial function, so that the state of
 //	                 the upstream connection pool matters: cold (warm-ups 0), warm-idle (warm-ups 1), warm-but-busy
 //	                 (several connections to the same origin released together: async), different origins
+//	               n o e  the kind of client of the parked exchange: n HTTP/1.1 with `Connection: close`, o HTTP/1.0
+//	                 (closes by default), e HTTP/1.0 with `Connection: keep-alive` (default: HTTP/1.1 keep-alive).
+//	                 n and o only where shutdown precedes the close decision (reqmod, rt, resmod)
 //	               g (write only) the client goes away instead of reading the response
 //	    async    (token) release all parked exchanges at once instead of one after the other
 //	    R: order in which the parked exchanges are released after Close was called
@@ -257,7 +260,7 @@ func (c *recConn) Write(b []byte) (int, error) {
 				cl, _ = strconv.ParseInt(rest, 10, 64)
 			}
 			st := "-"
-			if strings.HasPrefix(hd, "http/1.1 502") {
+			if len(hd) >= 12 && strings.HasPrefix(hd, "http/1.") && hd[8:12] == " 502" {
 				st = "+"
 			}
 			pre = append(pre, fmt.Sprintf("P%d%s", c.cr.id, st), fmt.Sprintf("W%d%s", c.cr.id, mark))
@@ -552,11 +555,42 @@ func dial(addr string) (*client, error) {
 	return &client{host: "h.test", c: c, br: bufio.NewReaderSize(c, 4096), local: c.LocalAddr().String(), end: 'o', done: make(chan struct{})}, nil
 }
 
-func (cl *client) send(n int) {
+func (cl *client) send(n int) { cl.sendKind(n, 0) }
+
+// sendKind sends a GET as an HTTP/1.1 keep-alive client (0), HTTP/1.1 with Connection: close ('n'),
+// HTTP/1.0 ('o') or HTTP/1.0 with Connection: keep-alive ('e').
+func (cl *client) sendKind(n int, kind byte) {
 	cl.mu.Lock()
 	cl.sizes = append(cl.sizes, n)
 	cl.mu.Unlock()
-	fmt.Fprintf(cl.c, "GET http://%s/b/%d HTTP/1.1\r\nHost: %s\r\n\r\n", cl.host, n, cl.host)
+	proto, extra := "HTTP/1.1", ""
+	switch kind {
+	case 'n':
+		extra = "Connection: close\r\n"
+	case 'o':
+		proto = "HTTP/1.0"
+	case 'e':
+		proto, extra = "HTTP/1.0", "Connection: keep-alive\r\n"
+	}
+	fmt.Fprintf(cl.c, "GET http://%s/b/%d %s\r\nHost: %s\r\n%s\r\n", cl.host, n, proto, cl.host, extra)
+}
+
+// peekHead returns the raw response head the client received (lower-cased), without consuming it.
+func (cl *client) peekHead() string {
+	want := 1
+	for {
+		if _, err := cl.br.Peek(want); err != nil {
+			return ""
+		}
+		b, _ := cl.br.Peek(cl.br.Buffered())
+		if i := bytes.Index(b, []byte("\r\n\r\n")); i >= 0 {
+			return strings.ToLower(string(b[:i+4]))
+		}
+		want = len(b) + 1
+		if want > 4096 {
+			return strings.ToLower(string(b))
+		}
+	}
 }
 
 // sendUpload writes the head of a POST and the first upFirst bytes of its body in one write.
@@ -679,20 +713,23 @@ func (cl *client) readOne(deadline time.Duration) (ok bool) {
 		want = cl.sizes[idx]
 	}
 	cl.mu.Unlock()
+	// "marked connection-close" is read off the header bytes the client actually received
+	// (http.ReadResponse would report Close for every HTTP/1.0 response and strips the header)
+	marked := strings.Contains(cl.peekHead(), "\r\nconnection: close\r\n")
 	res, err := http.ReadResponse(cl.br, nil)
 	code := byte('T')
 	if err == nil {
 		b, err2 := io.ReadAll(res.Body)
 		res.Body.Close()
 		if err2 == nil && res.StatusCode == 200 && want >= 0 && bytes.Equal(b, bodyFor(want)) {
-			if res.Close {
+			if marked {
 				code = 'm'
 			} else {
 				code = 'u'
 			}
 		}
 		if err2 == nil && res.StatusCode == 502 && want == -1 && len(b) == 0 && res.Header.Get("Warning") != "" {
-			if res.Close {
+			if marked {
 				code = 'M'
 			} else {
 				code = 'U'
@@ -805,6 +842,14 @@ type spec struct {
 	cr    *connRec
 }
 
+// kind: the client kind letter of the parked exchange (0: HTTP/1.1 keep-alive)
+func (s *spec) kind() byte {
+	if i := strings.IndexAny(s.out, "noe"); i >= 0 {
+		return s.out[i]
+	}
+	return 0
+}
+
 // upTotal: size of the upload of this connection (larger than the proxy's 4096-byte buffer; sometimes much larger)
 func (s *spec) upTotal(sz int) int {
 	if (sz+s.warm)%2 == 0 {
@@ -869,11 +914,11 @@ func parseForced(in []string) (sz int, specs []*spec, order []int, async bool, s
 			allowed := ""
 			switch pw[0] {
 			case "reqmod", "rt":
-				allowed = "qkxyzruvab"
+				allowed = "qkxyzruvabnoe"
 			case "resmod":
-				allowed = "qkxyzrab"
+				allowed = "qkxyzrabnoe"
 			case "write":
-				allowed = "qrgab"
+				allowed = "qrgabe"
 			}
 			var ob []byte
 			for i := 0; i < len(outc); i++ {
@@ -902,6 +947,18 @@ func parseForced(in []string) (sz int, specs []*spec, order []int, async bool, s
 			}
 			if strings.Contains(string(ob), "a") {
 				ob = []byte(strings.Replace(string(ob), "b", "", -1))
+			}
+			if strings.ContainsAny(string(ob), "noe") {
+				if strings.ContainsAny(string(ob), "uv") || pipe || coal {
+					// the client kind applies to a plain GET only
+					ob = []byte(strings.NewReplacer("n", "", "o", "", "e", "").Replace(string(ob)))
+				} else {
+					// one kind
+					first := strings.IndexAny(string(ob), "noe")
+					keep := ob[first]
+					ob = []byte(strings.NewReplacer("n", "", "o", "", "e", "").Replace(string(ob)))
+					ob = append(ob, keep)
+				}
 			}
 			specs = append(specs, &spec{point: pw[0], warm: w, pipe: pipe && !coal && isParked(pw[0]),
 				coal: coal && isParked(pw[0]), after: after, out: string(ob)})
@@ -1033,7 +1090,7 @@ func runForced(in []string) (out []string) {
 			} else if s.pipe {
 				cl.sendPipelined(sz, sz+7)
 			} else {
-				cl.send(sz)
+				cl.sendKind(sz, s.kind())
 			}
 			if strings.ContainsAny(s.out, "xyz") {
 				cl.setExpect(s.warm, -1)
@@ -1051,7 +1108,7 @@ func runForced(in []string) (out []string) {
 			} else if s.pipe {
 				cl.sendPipelined(bigBody, sz+7)
 			} else {
-				cl.send(bigBody)
+				cl.sendKind(bigBody, s.kind())
 			}
 			// parked when the head went out and the socket write has stalled
 			var last int64 = -1
@@ -1744,6 +1801,30 @@ func main() {
 			n++
 			jobs = append(jobs, job{fmt.Sprintf("f%d", n), in})
 		}
+		// client protocol version and connection preference at every placement of the shutdown
+		for _, pt := range []string{"reqmod", "rt", "resmod"} {
+			for _, oc := range []string{"n", "o", "e"} {
+				for w := 0; w <= 1; w++ {
+					tok := fmt.Sprintf("%s.%d/%s", pt, w, oc)
+					if rng.Chance(1, 3) {
+						tok += "a"
+					}
+					in := []string{"F", fmt.Sprintf("sz:%d", pickSz(rng)), tok}
+					if rng.Chance(1, 4) {
+						in = append(in, "sc:40")
+					}
+					cfg.Count("client=" + oc)
+					cfg.Count("point=" + pt)
+					n++
+					jobs = append(jobs, job{fmt.Sprintf("f%d", n), in})
+				}
+			}
+		}
+		for _, tok := range []string{"write.0/e", "write.1/e", "resmod.1/ex", "rt.0/oz", "reqmod.1/nq", "reqmod.0/ek"} {
+			n++
+			cfg.Count("client=" + tok[len(tok)-2:len(tok)-1])
+			jobs = append(jobs, job{fmt.Sprintf("f%d", n), []string{"F", "sz:100", tok}})
+		}
 		for _, oc := range []string{"g", "q", "r", "qr", "gq"} {
 			for w := 0; w <= 1; w++ {
 				n++
@@ -1756,7 +1837,7 @@ func main() {
 		if cfg.Thorough() {
 			no = 250
 		}
-		ocs := []string{"q", "k", "x", "y", "z", "r", "qx", "yr", "kr", "xr", "qy", "u", "v", "u", "v"}
+		ocs := []string{"q", "k", "x", "y", "z", "r", "qx", "yr", "kr", "xr", "qy", "u", "v", "u", "v", "n", "o", "e", "e", "oa", "ea"}
 		for i := 0; i < no; i++ {
 			k := rng.Range(2, 3)
 			in := []string{"F", fmt.Sprintf("sz:%d", pickSz(rng))}
